@@ -229,20 +229,262 @@ def job_logabsdet(cfg):
     return jr
 
 
+class _FakeMask:
+    """stands for torch.zeros(features).byte() with a *symbolic* integer length: records the slice updates."""
+
+    def __init__(self, n):
+        self.n, self.ops = n, []
+
+    def byte(self):
+        return self
+
+    def __getitem__(self, sl):
+        return _FakeView(self, sl)
+
+    def __setitem__(self, sl, v):
+        if not (isinstance(v, _FakeView) and v.parent is self):
+            raise explore.NotModelled("mask assignment")
+
+
+class _FakeView:
+    def __init__(self, parent, sl):
+        self.parent, self.sl = parent, sl
+
+    def __iadd__(self, k):
+        self.parent.ops.append((self.sl, k))
+        return self
+
+
+class PyInt:
+    """a symbolic stand-in for a python int argument: python's ==, //, %, +, comparisons on terms of sort I
+    (S itself keeps identity equality because it lives in object arrays)."""
+
+    def __init__(self, s_):
+        self.s = s_ if isinstance(s_, S) else S(tm.const(int(s_), "I"))
+
+    @staticmethod
+    def _u(o):
+        return o.s if isinstance(o, PyInt) else o
+
+    def _w(self, r):
+        return PyInt(r) if isinstance(r, S) and r.sort == "I" else (r if not isinstance(r, S) else _PyVal(r))
+
+    def __floordiv__(self, o):
+        return self._w(self.s // self._u(o))
+
+    def __mod__(self, o):
+        return self._w(self.s % self._u(o))
+
+    def __add__(self, o):
+        return self._w(self.s + self._u(o))
+
+    __radd__ = __add__
+
+    def __sub__(self, o):
+        return self._w(self.s - self._u(o))
+
+    def __rsub__(self, o):
+        return self._w(self._u(o) - self.s)
+
+    def __mul__(self, o):
+        return self._w(self.s * self._u(o))
+
+    __rmul__ = __mul__
+
+    def __neg__(self):
+        return self._w(-self.s)
+
+    def __truediv__(self, o):
+        return _PyVal(self.s / self._u(o))
+
+    def __eq__(self, o):
+        return _PyVal(self.s.eq(self._u(o)))
+
+    def __ne__(self, o):
+        return _PyVal(self.s.ne(self._u(o)))
+
+    def __lt__(self, o):
+        return _PyVal(self.s < self._u(o))
+
+    def __le__(self, o):
+        return _PyVal(self.s <= self._u(o))
+
+    def __gt__(self, o):
+        return _PyVal(self.s > self._u(o))
+
+    def __ge__(self, o):
+        return _PyVal(self.s >= self._u(o))
+
+    def __hash__(self):
+        return hash(self.s.t)
+
+    def __index__(self):
+        raise explore.NotModelled("a symbolic python int used as a concrete index / converted with int()")
+
+    __int__ = __index__
+
+
+class _PyVal:
+    """a symbolic bool / real result of PyInt arithmetic."""
+
+    def __init__(self, s_):
+        self.s = s_
+
+    def __bool__(self):
+        return bool(self.s)
+
+    def __round__(self, nd=None):
+        raise explore.NotModelled("round() of a symbolic value")
+
+
+def _int_term(v):
+    if isinstance(v, PyInt):
+        return v.s.t
+    if isinstance(v, S):
+        return v.t
+    return tm.const(int(v), "I")
+
+
+def mask_violation(jr, kind, f, even=None):
+    call = {"kind": kind, "f": f, "even": even}
+    rep = replay_mask(**call)
+    sig = {"mask": kind}
+    payload = {"property": PROP, "kernel": "create_%s_binary_mask" % kind, "relation": "mask-contents", "signature": sig, "replay_result": rep, "replay_call": {"fn": "harness.C20:replay_mask", "args": call}}
+    if rep.get("reproduced"):
+        if not any(v["signature"] == sig for v in jr["violations"]):
+            jr["violations"].append({"kernel": payload["kernel"], "relation": "mask-contents", "signature": sig, "replay": C.write_replay(PROP, "mask_%s_%s" % (kind, f), payload), "detail": rep})
+    else:
+        jr["inconclusive"].append({"mask": kind, "f": f, "why": "mismatch not reproduced", "replay": rep})
+
+
+def replay_mask(kind, f, even=None):
+    res = {"reproduced": False}
+    try:
+        mid = (f + 1) // 2
+        if kind == "alternating":
+            m = torchutils.create_alternating_binary_mask(f, even=even).tolist()
+            res["reproduced"] = m != [1 if (i % 2 == (0 if even else 1)) else 0 for i in range(f)]
+        elif kind == "mid_split":
+            m = torchutils.create_mid_split_binary_mask(f).tolist()
+            res["reproduced"] = m != [1] * mid + [0] * (f - mid)
+        else:
+            torch.manual_seed(f)
+            m = torchutils.create_random_binary_mask(f).tolist()
+            res["reproduced"] = not (len(m) == f and all(v in (0, 1) for v in m) and sum(m) == mid)
+        res["mask"] = m
+    except Exception as e:  # noqa
+        res["exception"] = "%s: %s" % (type(e).__name__, e)
+        res["reproduced"] = True
+    return res
+
+
+def job_masks_symbolic_size(jr):
+    """features is a symbolic integer >= 1 (no upper bound): the slice bounds / the number of drawn indices are integer
+    terms and z3 (linear integer arithmetic with div/mod) decides  2*m - features in {0, 1}  i.e. m == ceil(features/2)."""
+    R = sc.new_registry()
+    solver = smt.Z3Proc()
+    twins = []
+    for kind in ("mid_split", "random", "alternating-even", "alternating-odd"):
+        got = {}
+
+        def run():
+            f = PyInt(S(R.declare("features", sort="I", lo=0)))
+            holder = {}
+
+            def zeros(n, **kw):
+                holder["mask"] = _FakeMask(n)
+                return holder["mask"]
+
+            def multinomial(input, num_samples, replacement=False, **kw):
+                holder["num_samples"] = num_samples
+                holder["replacement"] = replacement
+                return "indices"
+
+            class _W:
+                def float(self):
+                    return self
+
+            with stubs.patched((torch, "zeros", zeros), (torch, "multinomial", multinomial), (torch, "ones", lambda n, **kw: _W())):
+                if kind == "mid_split":
+                    torchutils.create_mid_split_binary_mask(f)
+                elif kind == "random":
+                    torchutils.create_random_binary_mask(f)
+                else:
+                    torchutils.create_alternating_binary_mask(f, even=kind.endswith("even"))
+            return f, holder
+
+        ex = explore.Explorer(R, solver, max_paths=50)
+        res = ex.explore(run)
+        jr["paths"] += len(res)
+        for pi, r in enumerate(res):
+            qn = "symbolic-size/%s/path%d" % (kind, pi)
+            if r.kind != "return":
+                jr["inconclusive"].append({"query": qn, "why": "%s: %s" % (type(r.exc).__name__, r.exc)})
+                continue
+            f, holder = r.value
+            cond = list(r.path.condition())
+            mask = holder.get("mask")
+            goal = None
+            ft = f.s.t
+            if mask is None or _int_term(mask.n) is not ft:
+                goal = tm.FALSE
+            elif kind == "mid_split":
+                ok_shape = len(mask.ops) == 1 and isinstance(mask.ops[0][0], slice) and mask.ops[0][0].start is None and mask.ops[0][0].step is None and mask.ops[0][1] == 1
+                if ok_shape:
+                    m_ = _int_term(mask.ops[0][0].stop)
+                    d = tm.sub(tm.scale(2, m_), ft)
+                    goal = tm.and_(tm.ge(d, tm.const(0, "I")), tm.le(d, tm.const(1, "I")))
+                else:
+                    goal = tm.FALSE
+            elif kind == "random":
+                ok_shape = len(mask.ops) == 1 and mask.ops[0][0] == "indices" and mask.ops[0][1] == 1 and holder.get("replacement") is False
+                if ok_shape:
+                    d = tm.sub(tm.scale(2, _int_term(holder["num_samples"])), ft)
+                    goal = tm.and_(tm.ge(d, tm.const(0, "I")), tm.le(d, tm.const(1, "I")))
+                else:
+                    goal = tm.FALSE
+            else:
+                want_start = 0 if kind.endswith("even") else 1
+                sl = mask.ops[0][0] if len(mask.ops) == 1 else None
+                goal = tm.TRUE if (isinstance(sl, slice) and sl.start == want_start and sl.stop is None and sl.step == 2 and mask.ops[0][1] == 1) else tm.FALSE
+            o = C.prove(R, solver, qn, goal, [cond], 20)
+            jr["outcomes"].append(dict(o.as_dict(), expect="unsat", kind="goal"))
+            if kind == "mid_split" and goal is not tm.FALSE:
+                # false claim (vacuity guard): the split point is floor(features / 2)
+                o2 = C.prove(R, solver, qn + "/twin:floor", tm.eq(tm.scale(2, m_), tm.sub(ft, tm.imod(ft, 2))), [cond], 20)
+                twins.append(o2.status)
+                jr["outcomes"].append(dict(o2.as_dict(), expect=o2.status, kind="twin" if o2.status == "sat" else "goal"))
+            if o.status == "sat":
+                fv = None
+                for t_, v_ in (o.model or {}).items():
+                    if t_.op == "var" and t_.args[0] == "features":
+                        fv = int(v_)
+                fv = fv if fv and fv > 0 else 1
+                base_kind = kind.split("-")[0]
+                mask_violation(jr, base_kind, fv, even=kind.endswith("even") if base_kind == "alternating" else None)
+            elif o.status != "unsat":
+                jr["inconclusive"].append({"query": qn, "status": o.status})
+    if "sat" not in twins and not jr["violations"]:
+        jr["inconclusive"].append({"query": "symbolic-size/mid_split/twin", "why": "false claim (floor instead of ceil) not refuted on any path"})
+    solver.close()
+
+
 def job_masks(cfg):
     jr = C01.new_jr("mask-constructors")
     n = 0
+    job_masks_symbolic_size(jr)
+    # concrete cross-check of the same constructors on the real torch (small sizes)
     for f in range(1, cfg["maxf"] + 1):
         for even in (True, False):
             m = torchutils.create_alternating_binary_mask(f, even=even).tolist()
             ok = m == [1 if (i % 2 == (0 if even else 1)) else 0 for i in range(f)]
             n += 1
-            rec(jr, "alternating(%d,%s)" % (f, even), ok) or jr["inconclusive"].append({"mask": "alternating", "f": f})
+            rec(jr, "alternating(%d,%s)" % (f, even), ok) or mask_violation(jr, "alternating", f, even)
         m = torchutils.create_mid_split_binary_mask(f).tolist()
         mid = (f + 1) // 2
         ok = m == [1] * mid + [0] * (f - mid)
         n += 1
-        rec(jr, "mid_split(%d)" % f, ok) or jr["inconclusive"].append({"mask": "mid_split", "f": f})
+        rec(jr, "mid_split(%d)" % f, ok) or mask_violation(jr, "mid_split", f)
     # random mask: the multinomial draw is an arbitrary tuple of distinct indices (symbolic ints, forked)
     R = sc.new_registry()
     solver = smt.Z3Proc()
@@ -277,7 +519,7 @@ def job_masks(cfg):
             vals = [int(s.concrete()) for s in r.value.a.reshape(-1)]
             ok = len(vals) == f and all(v in (0, 1) for v in vals) and sum(vals) == want
             n += 1
-            rec(jr, "random_mask(%d) draw %s" % (f, [c.args[0] for c, v, _ in r.path.decisions if v][:4]), ok, str(vals)) or jr["inconclusive"].append({"random_mask": f, "vals": vals})
+            rec(jr, "random_mask(%d) draw %s" % (f, [c.args[0] for c, v, _ in r.path.decisions if v][:4]), ok, str(vals)) or mask_violation(jr, "random", f)
     jr["samples"].append({"kernel": "create_random_binary_mask", "features": 4, "claim": "for every tuple of distinct drawn indices the mask is 0/1 with ceil(f/2) ones"})
     solver.close()
     return jr
